@@ -108,7 +108,7 @@ def job_source(job):
     return "\n".join(src)
 
 
-def write_crate(tag, jobs, nbins, features=()):
+def write_crate(tag, jobs, nbins, features=(), main_mode="seq"):
     d = os.path.join(PROG_DIR, tag)
     if os.path.exists(d):
         shutil.rmtree(d)
@@ -131,9 +131,17 @@ def write_crate(tag, jobs, nbins, features=()):
         main.append("fn main() {")
         main.append("   std::panic::set_hook(Box::new(|_| {}));")
         main.append("   let mut out: Vec<String> = vec![];")
-        for j in g:
-            mod = "m_" + re.sub(r"\W", "_", j["id"])
-            main.append("   %s::run_all(&mut out);" % mod)
+        if main_mode == "threads":
+            # all jobs of this binary run at the same time on their own OS threads (C20)
+            main.append("   let mut hs = vec![];")
+            for j in g:
+                mod = "m_" + re.sub(r"\W", "_", j["id"])
+                main.append("   hs.push(std::thread::spawn(|| { let mut o: Vec<String> = vec![]; %s::run_all(&mut o); o }));" % mod)
+            main.append("   for h in hs { out.extend(h.join().unwrap()); }")
+        else:
+            for j in g:
+                mod = "m_" + re.sub(r"\W", "_", j["id"])
+                main.append("   %s::run_all(&mut out);" % mod)
         main.append("   for l in out { println!(\"{}\", l); }")
         main.append("}")
         open(os.path.join(d, "src", "bin", bname + ".rs"), "w").write("\n".join(main))
@@ -144,7 +152,7 @@ def write_crate(tag, jobs, nbins, features=()):
     return d, [("%s_b%d" % (tag, b), g) for b, g in enumerate(groups)]
 
 
-def build_and_run(tag, jobs, nbins=None, features=(), run_timeout=120, build_timeout=1500):
+def build_and_run(tag, jobs, nbins=None, features=(), run_timeout=120, build_timeout=1500, main_mode="seq"):
     """returns {job id: [result per script]}; compile errors are attributed to jobs and the rest is rebuilt"""
     nbins = nbins or min(lib.NCPU, max(1, len(jobs) // 4))
     results = {}
@@ -152,7 +160,7 @@ def build_and_run(tag, jobs, nbins=None, features=(), run_timeout=120, build_tim
     for attempt in range(4):
         if not todo:
             break
-        d, groups = write_crate(tag, todo, nbins, features)
+        d, groups = write_crate(tag, todo, nbins, features, main_mode)
         with lib.Lock("cargo_prog"):
             rc, out = lib.sh(["cargo", "build", "--offline", "--bins", "--message-format=short"], cwd=d, timeout=build_timeout)
         if rc == 0:
